@@ -722,6 +722,7 @@ func (u *Unit) callSiteClauses(ev *Ev, ord string, names []string, args []Value,
 		for i, a := range args {
 			sev.binds[fmt.Sprintf("arg%d", i)] = a
 		}
+		sev.binds["argc"] = intV(fmt.Sprint(len(args))) // number of actual arguments (variadic calls)
 		for i, a := range u.lastRawArgs {
 			sev.binds[fmt.Sprintf("raw%d", i)] = a // argument before the implicit conversion to the parameter type
 		}
